@@ -20,18 +20,33 @@ func cmdCacheMgr(args []string) {
 	dir := fs.String("dir", os.TempDir(), "scratch directory")
 	maxSize := fs.Int64("maxsize", -1, "cache manager size limit")
 	stepMs := fs.Int("step-ms", 1000, "timeout per step in ms")
+	stages := fs.Int("stages", 0, "instead of behaviours: run the stage scenarios (a transaction on several goroutines) this many times")
 	fs.Parse(args)
-	bs, err := cached.ReadBehaviours(*beh)
-	if err != nil {
-		fmt.Fprintln(os.Stderr, err)
-		os.Exit(2)
-	}
 	tw, err := trace.NewWriter(*out)
 	if err != nil {
 		fmt.Fprintln(os.Stderr, err)
 		os.Exit(2)
 	}
 	defer tw.Close()
+	if *stages > 0 {
+		stuck := 0
+		for i := 0; i < *stages; i++ {
+			for _, v := range []string{"prune", "commit"} {
+				if cached.StageScenario(i, v, tw, cached.Opts{StepTimeout: time.Duration(*stepMs) * time.Millisecond, MaxSize: *maxSize}, *dir) {
+					stuck++
+				}
+			}
+		}
+		tw.Flush()
+		res, _ := json.Marshal(map[string]any{"behaviours": 2 * *stages, "drifted": 0, "stuck": stuck, "lines": tw.N, "drift_samples": []string{}})
+		fmt.Println(string(res))
+		return
+	}
+	bs, err := cached.ReadBehaviours(*beh)
+	if err != nil {
+		fmt.Fprintln(os.Stderr, err)
+		os.Exit(2)
+	}
 	drifted, stuck := 0, 0
 	var samples []string
 	for i, b := range bs {
